@@ -151,6 +151,73 @@ class Model:
                     r = self.resolve_expr(m, b)
                     if r and r[0] == 'class':
                         c.bases.append(r[1])
+        if not os.environ.get('VERIF_NO_KWNORM'):
+            self.n_kw_normalised = self._normalise_keyword_calls()
+
+    # ---------------------------------------------------------------- keyword calls
+    def _normalise_keyword_calls(self):
+        """Calls of the package's own functions, methods and classes written with keyword arguments are put into positional form (in this
+        process' syntax trees only): each keyword moves to the position its parameter has in the callee's signature; parameters skipped in
+        between are filled with the callee's default when that default is a constant.  The callee is the resolved function / class
+        constructor; for a method on a receiver of unknown type, the signature shared by EVERY method of that name in the package.  Calls
+        with * / ** arguments, or whose keywords do not all name parameters, are left as written.  How a maintainer spells the arguments
+        of a call then makes no difference to any rule."""
+        import copy
+        by_name = {}
+        for g in self.all_funcs:
+            if g.cls is not None:
+                by_name.setdefault(g.name, []).append(g)
+        n = 0
+        for fi in list(self.all_funcs):
+            for c in ast.walk(fi.node):
+                if not (isinstance(c, ast.Call) and c.keywords and all(k.arg for k in c.keywords)) or any(isinstance(a, ast.Starred) for a in c.args):
+                    continue
+                try:
+                    r = self.resolve_call(fi, c)
+                except Exception:
+                    r = None
+                callee, skip = None, 0
+                if r is not None and r[0] == 'func':
+                    callee = r[1]
+                    skip = 1 if (callee.cls is not None and isinstance(c.func, ast.Attribute) and callee.params[:1] in (['self'], ['cls'])
+                                 and 'staticmethod' not in callee.decorators) else 0
+                elif r is not None and r[0] == 'class':
+                    callee = self.find_method(r[1], '__init__')
+                    skip = 1
+                elif r is not None and r[0] == 'method':
+                    cands = by_name.get(r[1], [])
+                    sigs = {(tuple(g.params), tuple(ast.dump(d) for d in g.node.args.defaults)) for g in cands}
+                    if cands and len(sigs) == 1 and 'staticmethod' not in cands[0].decorators:
+                        callee, skip = cands[0], 1
+                if callee is None or callee.vararg or callee.kwarg or callee.kwonly:
+                    continue
+                params = callee.params[skip:]
+                dflt = dict(zip(callee.params[len(callee.params) - len(callee.node.args.defaults):], callee.node.args.defaults))
+                kw = {k.arg: k.value for k in c.keywords}
+                if not set(kw) <= set(params) or len(c.args) > len(params) or any(params.index(k) < len(c.args) for k in kw):
+                    continue
+                args = list(c.args)
+                last = max(params.index(k) for k in kw)
+                ok = True
+                for p_ in params[len(args):last + 1]:
+                    if p_ in kw:
+                        args.append(kw[p_])
+                    elif p_ in dflt and isinstance(dflt[p_], ast.Constant):
+                        args.append(copy.deepcopy(dflt[p_]))
+                    else:
+                        ok = False
+                        break
+                if ok:
+                    for a_ in args:
+                        if not hasattr(a_, 'lineno'):
+                            ast.copy_location(a_, c)
+                        fi.module.parents[a_] = c
+                        for sub in ast.walk(a_):
+                            for ch in ast.iter_child_nodes(sub):
+                                fi.module.parents.setdefault(ch, sub)
+                    c.args, c.keywords = args, []
+                    n += 1
+        return n
 
     # ---------------------------------------------------------------- indexing
     def _index(self, m):
